@@ -226,15 +226,18 @@ func NIA1(ik [16]byte, countI uint32, bearer byte, direction uint32, msg []byte,
 	Q := (uint64(z[2]) << 32) | uint64(z[3])
 
 	var Eval uint64 = 0
-	for i := uint64(0); i < D-2; i++ {
-		M := binary.BigEndian.Uint64(msg[8*i:])
+	// An empty message (LENGTH = 0, D = 1) has no message block; D-2 would wrap around.
+	if length > 0 {
+		for i := uint64(0); i < D-2; i++ {
+			M := binary.BigEndian.Uint64(msg[8*i:])
+			Eval = mul(Eval^M, P, 0x000000000000001b)
+		}
+
+		tmp := make([]byte, 8)
+		copy(tmp, msg[8*(D-2):])
+		M := binary.BigEndian.Uint64(tmp)
 		Eval = mul(Eval^M, P, 0x000000000000001b)
 	}
-
-	tmp := make([]byte, 8)
-	copy(tmp, msg[8*(D-2):])
-	M := binary.BigEndian.Uint64(tmp)
-	Eval = mul(Eval^M, P, 0x000000000000001b)
 
 	Eval = Eval ^ length
 	Eval = mul(Eval, Q, 0x000000000000001b)
